@@ -59,6 +59,27 @@ def make_spec(c, rng):
         en = rng.choice([None, None, dur + hyd, st + hyd, st + 2 * hyd, st + hyd + rng.randint(1, hyd - 1), st + rng.randint(1, hyd - 1)])
         spec['leaks'].append({'node': nm, 'area': gnet._round(10 ** rng.uniform(-5, -2.3), 4),
                               'cd': rng.choice([0.75, 0.6, 1.0]), 'start': st, 'end': en})
+    # leaks whose start / end instants coincide exactly (several leak controls due at one, mostly off-grid, instant): side stream
+    import random as _random
+    side = _random.Random(c.index * 2654435761 % (2 ** 31) + len(spec['leaks']))
+    if len(spec['leaks']) >= 2 and side.random() < 0.4:
+        a, b = spec['leaks'][0], spec['leaks'][1]
+        t_off = hyd * side.randint(0, 2) + side.choice([side.randint(1, hyd - 1), hyd // 2 + 20, 500, 1700])
+        how = side.choice(['start=start', 'start=end', 'end=end'])
+        if how == 'start=start':
+            a['start'] = b['start'] = t_off
+            for l in (a, b):
+                if l['end'] is not None and l['end'] <= t_off:
+                    l['end'] = None
+        elif how == 'start=end':
+            a['start'], a['end'] = min(a['start'], max(0, t_off - hyd)), t_off
+            b['start'] = t_off
+            if b['end'] is not None and b['end'] <= t_off:
+                b['end'] = None
+        else:
+            for l in (a, b):
+                l['start'] = min(l['start'], max(0, t_off - hyd))
+                l['end'] = t_off
     return spec
 
 
